@@ -15,6 +15,11 @@ def setVar (k v : Bytes) : List (Bytes × Bytes) → List (Bytes × Bytes)
   | [] => [(k, v)]
   | (k', v') :: r => if k' = k then (k, v) :: r else (k', v') :: setVar k v r
 
+/-- `ast.Vars.Get` -/
+def lookupVar (k : Bytes) : List (Bytes × Bytes) → Option Bytes
+  | [] => none
+  | (k', v) :: r => if k' = k then some v else lookupVar k r
+
 def hasEq (a : Bytes) : Bool := a.contains 61
 
 /-- `args.Parse`: arguments without `=` are task calls (in order), the others are global
@@ -25,7 +30,7 @@ def parse (argv : List Bytes) : List Bytes × List (Bytes × Bytes) :=
 
 /-- `args.Get`: `argv` = `pflag.Args()`, `dash` = `ArgsLenAtDash()` (`none` = no `--`):
 arguments before `--` verbatim, arguments after it individually quoted. -/
-def get (argv : List Bytes) (dash : Option Nat) : Except Nat (List Bytes × List Bytes) :=
+def argsGet (argv : List Bytes) (dash : Option Nat) : Except Nat (List Bytes × List Bytes) :=
   match dash with
   | none => .ok (argv, [])
   | some d => match (argv.drop d).mapM quote with
@@ -41,7 +46,7 @@ def joinSp : List Bytes → Bytes
 /-- The value `CLI_ARGS` must have (cmd/task after fix F3): the quoted arguments after
 `--` joined by single spaces. -/
 def cliArgs (argv : List Bytes) (dash : Option Nat) : Except Nat Bytes :=
-  match get argv dash with
+  match argsGet argv dash with
   | .ok (_, qs) => .ok (joinSp qs)
   | .error e => .error e
 
